@@ -68,7 +68,7 @@ Proof.
       destruct (Nat.eqb y x) eqn:Ey; [|reflexivity]. apply Nat.eqb_eq in Ey. subst y.
       rewrite E. reflexivity.
     + f_equal. rewrite IH. apply dedupe_acc_ext. intros y. cbn. rewrite !mem_app. cbn.
-      destruct (Nat.eqb y x); cbn; [rewrite orb_true_r|]; reflexivity.
+      destruct (Nat.eqb y x); cbn; reflexivity.
 Qed.
 
 Lemma dedupe_acc_id l : forall s, NoDup l -> (forall x, In x l -> ~ In x s) -> dedupe_acc s l = l.
@@ -136,3 +136,279 @@ Lemma dedupe_NoDup l : NoDup (dedupe l).
 Proof. apply dedupe_acc_NoDup. Qed.
 Lemma dedupe_id l : NoDup l -> dedupe l = l.
 Proof. intros. apply dedupe_acc_id; [assumption|]. intros ? ? []. Qed.
+
+(* ------------------------------------------------------------------ Part B *)
+Definition elems (seqs : list (list node)) (y : node) : Prop := exists s, In s seqs /\ In y s.
+
+Lemma filter_neq_len b (s : list node) :
+  length (filter (fun y => negb (Nat.eqb y b)) s) <= length s.
+Proof. induction s as [|x s IH]; cbn; [lia|]. destruct (negb (Nat.eqb x b)); cbn; lia. Qed.
+
+Lemma filter_neq_len_lt b (s : list node) : In b s ->
+  length (filter (fun y => negb (Nat.eqb y b)) s) < length s.
+Proof.
+  induction s as [|x s IH]; cbn; [tauto|]. intros [->|H].
+  - rewrite Nat.eqb_refl. cbn. pose proof (filter_neq_len b s). lia.
+  - specialize (IH H). destruct (negb (Nat.eqb x b)); cbn; lia.
+Qed.
+
+Lemma total_len_cons s l : total_len (s :: l) = length s + total_len l.
+Proof. reflexivity. Qed.
+
+Lemma total_len_nonempty l : total_len (filter nonempty l) = total_len l.
+Proof.
+  induction l as [|s l IH]; [reflexivity|]. cbn [filter]. destruct s; cbn [nonempty].
+  - rewrite total_len_cons. cbn. assumption.
+  - rewrite !total_len_cons. lia.
+Qed.
+
+Lemma total_len_remove b seqs : total_len (remove_everywhere b seqs) <= total_len seqs.
+Proof.
+  unfold remove_everywhere. rewrite total_len_nonempty.
+  induction seqs as [|s l IH]; [cbn; lia|]. cbn [map]. rewrite !total_len_cons.
+  pose proof (filter_neq_len b s). unfold node in *; lia.
+Qed.
+
+Lemma total_len_remove_lt b seqs : elems seqs b -> total_len (remove_everywhere b seqs) < total_len seqs.
+Proof.
+  unfold remove_everywhere. rewrite total_len_nonempty. intros [s [Hs Hb]].
+  induction seqs as [|s' l IH]; [destruct Hs|]. cbn [map]. rewrite !total_len_cons. destruct Hs as [->|Hs].
+  - pose proof (filter_neq_len_lt b s Hb).
+    pose proof (total_len_remove b l) as H1. unfold remove_everywhere in H1. rewrite total_len_nonempty in H1.
+    unfold node in *; lia.
+  - specialize (IH Hs). pose proof (filter_neq_len b s'). unfold node in *; lia.
+Qed.
+
+Lemma nonempty_true (s : list node) : nonempty s = true <-> s <> [].
+Proof. destruct s; cbn; split; congruence. Qed.
+
+Lemma elems_remove b seqs y : elems (remove_everywhere b seqs) y <-> y <> b /\ elems seqs y.
+Proof.
+  unfold remove_everywhere, elems. split.
+  - intros [s' [Hs' Hy]]. apply filter_In in Hs'. destruct Hs' as [Hs' _].
+    apply in_map_iff in Hs'. destruct Hs' as [s [<- Hs]]. apply filter_In in Hy. destruct Hy as [Hy Hn].
+    split; [|exists s; tauto]. intros ->. rewrite Nat.eqb_refl in Hn. discriminate.
+  - intros [Hn [s [Hs Hy]]]. exists (filter (fun b0 => negb (Nat.eqb b0 b)) s).
+    assert (In y (filter (fun b0 => negb (Nat.eqb b0 b)) s)).
+    { apply filter_In. split; [assumption|]. apply negb_true_iff, Nat.eqb_neq. assumption. }
+    split; [|assumption]. apply filter_In. split; [apply in_map; assumption|].
+    apply nonempty_true. intros E. rewrite E in H. destruct H.
+Qed.
+
+Lemma find_from_head all l b : find_from l all = Some b -> elems l b.
+Proof.
+  induction l as [|s l IH]; [discriminate|]. cbn [find_from]. destruct s as [|h t].
+  - intros H. destruct (IH H) as [s [Hs Hb]]. exists s. split; [right|]; assumption.
+  - destruct (can_choose h all).
+    + intros [= ->]. exists (b :: t). split; left; reflexivity.
+    + intros H. destruct (IH H) as [s [Hs Hb]]. exists s. split; [right|]; assumption.
+Qed.
+
+Lemma find_next_head seqs b : find_next seqs = Some b -> elems seqs b.
+Proof. unfold find_next. apply find_from_head. Qed.
+
+Lemma merge_loop_spec fuel : forall seqs acc,
+  Forall (fun s => s <> []) seqs -> total_len seqs < fuel ->
+  match merge_loop fuel seqs acc with
+  | MOk l => (forall y, In y l <-> In y acc \/ elems seqs y) /\
+             (NoDup acc -> (forall y, In y acc -> ~ elems seqs y) -> NoDup l)
+  | MBad => True
+  | MFuel => False
+  end.
+Proof.
+  induction fuel as [|f IH]; intros seqs acc HF HL; [lia|].
+  cbn [merge_loop]. destruct seqs as [|s0 rest].
+  - split.
+    + intros y. rewrite <- in_rev. split; [tauto|]. intros [H|[s [[] _]]]. assumption.
+    + intros ND _. apply NoDup_rev. assumption.
+  - remember (s0 :: rest) as seqs. destruct (find_next seqs) as [b|] eqn:EF; [|exact I].
+    pose proof (find_next_head _ _ EF) as Hb.
+    assert (HF' : Forall (fun s => s <> []) (remove_everywhere b seqs)).
+    { apply Forall_forall. intros s Hs. unfold remove_everywhere in Hs. apply filter_In in Hs.
+      apply nonempty_true. tauto. }
+    assert (HL' : total_len (remove_everywhere b seqs) < f).
+    { pose proof (total_len_remove_lt b seqs Hb). lia. }
+    specialize (IH (remove_everywhere b seqs) (b :: acc) HF' HL').
+    destruct (merge_loop f (remove_everywhere b seqs) (b :: acc)) as [l| |]; [|exact I|exact IH].
+    destruct IH as [IH1 IH2]. split.
+    + intros y. rewrite IH1, elems_remove. cbn. destruct (Nat.eq_dec b y) as [->|N]; [tauto|].
+      split; [intros [[?|?]|[? ?]]; tauto|]. intros [?|?]; [tauto|]. right. split; [congruence|assumption].
+    + intros ND HD. apply IH2.
+      * constructor; [|assumption]. intros F. apply (HD b F Hb).
+      * intros y [<-|Hy]; rewrite elems_remove; [tauto|]. intros [_ F]. apply (HD y Hy F).
+Qed.
+
+Lemma c3_merge_spec seqs :
+  match c3_merge seqs with
+  | MOk l => (forall y, In y l <-> elems seqs y) /\ NoDup l
+  | MBad => True
+  | MFuel => False
+  end.
+Proof.
+  unfold c3_merge.
+  assert (HF : Forall (fun s => s <> []) (filter nonempty seqs)).
+  { apply Forall_forall. intros s Hs. apply filter_In in Hs. apply nonempty_true. tauto. }
+  pose proof (merge_loop_spec (S (total_len (filter nonempty seqs))) (filter nonempty seqs) [] HF (Nat.lt_succ_diag_r _)) as H.
+  destruct (merge_loop _ _ _) as [l| |]; [|exact I|exact H].
+  destruct H as [H1 H2]. split.
+  - intros y. rewrite H1. cbn. split.
+    + intros [[]|[s [Hs Hy]]]. apply filter_In in Hs. exists s. tauto.
+    + intros [s [Hs Hy]]. right. exists s. split; [|assumption]. apply filter_In. split; [assumption|].
+      apply nonempty_true. intros ->. destruct Hy.
+  - apply H2; [constructor|]. intros y [].
+Qed.
+
+Lemma keep_last_In l y : In y (keep_last l) <-> In y l.
+Proof.
+  induction l as [|x l IH]; cbn; [tauto|]. destruct (mem x l) eqn:E.
+  - rewrite IH. apply mem_In in E. split; [tauto|]. intros [->|H]; assumption.
+  - cbn. rewrite IH. tauto.
+Qed.
+
+Lemma keep_last_NoDup l : NoDup (keep_last l).
+Proof.
+  induction l as [|x l IH]; cbn; [constructor|]. destruct (mem x l) eqn:E; [assumption|].
+  constructor; [|assumption]. rewrite keep_last_In. apply mem_false. assumption.
+Qed.
+
+Lemma NoDup_snoc (a : list node) r : NoDup a -> ~ In r a -> NoDup (a ++ [r]).
+Proof.
+  induction a as [|x a IH]; cbn; intros ND N; [constructor; [tauto|constructor]|].
+  inversion ND; subst. constructor.
+  - rewrite in_app_iff. cbn. intros [F|[F|[]]]; [tauto|]. apply N. left. congruence.
+  - apply IH; [assumption|]. tauto.
+Qed.
+
+Lemma last_is_In r l : last_is r l = true -> In r l.
+Proof.
+  unfold last_is. destruct (rev l) as [|y t] eqn:E; [discriminate|].
+  intros H. apply Nat.eqb_eq in H. subst y. apply in_rev. rewrite E. left. reflexivity.
+Qed.
+
+Lemma root_last_In r l y : l <> [] -> (In y (root_last r l) <-> y = r \/ In y l).
+Proof.
+  intros NE. unfold root_last. destruct l as [|x t]; [congruence|].
+  remember (x :: t) as l. destruct (last_is r l) eqn:E.
+  - apply last_is_In in E. split; [tauto|]. intros [->|H]; assumption.
+  - rewrite in_app_iff, filter_In. cbn. destruct (Nat.eq_dec y r) as [->|N]; [tauto|].
+    split; [intuition congruence|]. intros [?|H]; [tauto|]. left. split; [assumption|].
+    apply negb_true_iff, Nat.eqb_neq. assumption.
+Qed.
+
+Lemma root_last_NoDup r l : NoDup l -> NoDup (root_last r l).
+Proof.
+  intros ND. unfold root_last. destruct l as [|x t]; [constructor|].
+  destruct (last_is r (x :: t)); [assumption|]. apply NoDup_snoc.
+  - apply NoDup_filter. assumption.
+  - rewrite filter_In. intros [_ F]. rewrite Nat.eqb_refl in F. discriminate.
+Qed.
+
+Lemma elems_c3 x ms bs y : elems ([[x]] ++ ms ++ [bs]) y <-> y = x \/ elems ms y \/ In y bs.
+Proof.
+  unfold elems. split.
+  - intros [s [Hs Hy]]. cbn in Hs. destruct Hs as [<-|Hs].
+    + destruct Hy as [<-|[]]. left. reflexivity.
+    + apply in_app_iff in Hs. destruct Hs as [Hs|[<-|[]]].
+      * right. left. exists s. split; assumption.
+      * right. right. assumption.
+  - intros [->|[[s [Hs Hy]]|H]].
+    + exists [x]. split; left; reflexivity.
+    + exists s. split; [|assumption]. cbn [app]. right. apply in_app_iff. left. exact Hs.
+    + exists bs. split; [|assumption]. cbn [app]. right. apply in_app_iff. right. left. reflexivity.
+Qed.
+
+Section Graph.
+  Variable gr : graph.
+  Hypothesis wfb : forall x b, In b (bases gr x) -> b < x.
+
+  Lemma reach_inv x y : reach gr x y <-> x = y \/ exists b, In b (bases gr x) /\ reach gr b y.
+  Proof.
+    split.
+    - intros H. destruct H; [left; reflexivity|right; eauto].
+    - intros [->|[b [Hb H]]]; [constructor|econstructor; eassumption].
+  Qed.
+
+  Lemma reach_trans x y z : reach gr x y -> reach gr y z -> reach gr x z.
+  Proof. induction 1; [tauto|]. intros. econstructor; [eassumption|auto]. Qed.
+
+  Lemma reach_le x y : reach gr x y -> y <= x.
+  Proof. induction 1; [lia|]. apply wfb in H. lia. Qed.
+
+  Lemma reach_root y : reach gr root y -> y = root.
+  Proof. intros H. apply reach_le in H. unfold root in *. lia. Qed.
+
+  Lemma legacy_flatten_In fuel : forall x y, x <= fuel ->
+    (In y (legacy_flatten fuel gr x) <-> reach gr x y).
+  Proof.
+    induction fuel as [|f IH]; intros x y Hx.
+    - assert (x = 0) by lia. subst. cbn. split.
+      + intros [<-|[]]. constructor.
+      + intros H. apply reach_le in H. lia.
+    - cbn [legacy_flatten]. cbn [In]. rewrite in_flat_map, reach_inv. split.
+      + intros [->|[b [Hb H]]]; [tauto|]. right. exists b. split; [assumption|].
+        apply IH; [|assumption]. apply wfb in Hb. lia.
+      + intros [->|[b [Hb H]]]; [tauto|]. right. exists b. split; [assumption|].
+        apply IH; [|assumption]. apply wfb in Hb. lia.
+  Qed.
+
+  Lemma c3_node_cases x bs ms leg :
+    (exists b m, bs = [b] /\ ms = [m] /\ c3_node false x bs ms false leg = ROk (x :: m) false) \/
+    c3_node false x bs ms false leg =
+      match c3_merge ([[x]] ++ ms ++ [bs]) with
+      | MOk l => ROk l false
+      | MBad => ROk leg true
+      | MFuel => RFuel
+      end.
+  Proof.
+    destruct bs as [|b [|b2 bs]]; destruct ms as [|m [|m2 ms]]; cbn; auto.
+    left. exists b, m. auto.
+  Qed.
+
+  Lemma fresh_sro_spec fuel : forall x, x < fuel ->
+    (forall y, In y (fresh_sro fuel root gr x) <-> y = root \/ reach gr x y) /\
+    NoDup (fresh_sro fuel root gr x).
+  Proof.
+    induction fuel as [|f IH]; intros x Hx; [lia|].
+    cbn [fresh_sro]. unfold calc_sro. destruct (Nat.eqb x root) eqn:Er.
+    - apply Nat.eqb_eq in Er. subst x. split.
+      + intros y. cbn [In]. split; [intros [<-|[]]; auto|].
+        intros [->|H]; [auto|]. apply reach_root in H. auto.
+      + constructor; [intros []|constructor].
+    - apply Nat.eqb_neq in Er.
+      assert (IHb : forall b, In b (bases gr x) ->
+                 (forall y, In y (fresh_sro f root gr b) <-> y = root \/ reach gr b y) /\
+                 NoDup (fresh_sro f root gr b)).
+      { intros b Hb. apply IH. apply wfb in Hb. lia. }
+      set (leg := legacy_ro (S f) gr x).
+      destruct (c3_node_cases x (bases gr x) (map (fresh_sro f root gr) (bases gr x)) leg)
+        as [[b [m [Eb [Em ->]]]] | ->].
+      + rewrite Eb in Em. cbn in Em. injection Em as <-.
+        assert (Hb : In b (bases gr x)) by (rewrite Eb; left; reflexivity).
+        destruct (IHb b Hb) as [M ND]. split.
+        * intros y. rewrite root_last_In by discriminate. cbn [In]. rewrite M, (reach_inv x y), Eb. cbn [In].
+          split; [intros [?|[?|[?|?]]]; eauto 6|].
+          intros [?|[?|[b' [[<-|[]] ?]]]]; tauto.
+        * apply root_last_NoDup. constructor; [|assumption]. rewrite M. intros [F|F]; [congruence|].
+          apply reach_le in F. apply wfb in Hb. lia.
+      + pose proof (c3_merge_spec ([[x]] ++ map (fresh_sro f root gr) (bases gr x) ++ [bases gr x])) as HM.
+        destruct (c3_merge _) as [l| |]; [| |destruct HM].
+        * destruct HM as [M ND]. assert (NE : l <> []).
+          { intros ->. apply (M x). apply elems_c3. left. reflexivity. }
+          split; [|apply root_last_NoDup; assumption].
+          intros y. rewrite root_last_In by assumption. rewrite M, elems_c3, (reach_inv x y). split.
+          -- intros [?|[->|[[s [Hs Hy]]|Hy]]]; [tauto|tauto| |].
+             ++ apply in_map_iff in Hs. destruct Hs as [b [<- Hb]]. apply (IHb b Hb) in Hy.
+                destruct Hy; [tauto|]. right. right. eauto.
+             ++ right. right. exists y. split; [assumption|constructor].
+          -- intros [->|[->|[b [Hb H]]]]; [tauto|tauto|].
+             right. right. left. exists (fresh_sro f root gr b). split.
+             ++ apply in_map. assumption.
+             ++ apply (IHb b Hb). tauto.
+        * assert (ML : forall y, In y leg <-> reach gr x y).
+          { intros y. unfold leg, legacy_ro. rewrite keep_last_In. apply legacy_flatten_In. lia. }
+          assert (NE : leg <> []).
+          { intros E. assert (In x leg) by (apply ML; constructor). rewrite E in H. destruct H. }
+          split; [|apply root_last_NoDup, keep_last_NoDup].
+          intros y. rewrite root_last_In by assumption. rewrite ML. tauto.
+  Qed.
+End Graph.
